@@ -29,9 +29,17 @@ SYMBOL_TASKS = [
     ('p(1). q(2).', 'p(1) :- q(2).'),
     ('q :- hp < hp0, p.', 'q :- hp < hp0, p, not not p.'),
     ('q(tq, tq0, tq_) :- q.', 'q(tq, tq0, tq_) :- q, not r.'),
+    # constants named like predicates of arity >= 1 (and like their here/there copies), next to constants extending the name
+    ('r :- p(p), p1 < p.', 'r :- p(p).'),
+    ('q(q, q0, q_, qA).', 'q(q, q0, q_, qA) :- not r(q, r, r1).'),
+    ('r :- p(hp, tp), hp1 < hp, tp_ < tp.', 'r :- p(hp, tp).'),
+    ('p(p, p) :- p. p :- p(p0, p__s).', 'p(p, p) :- p, not p(p0, p__s).'),
 ]
 EXT_SYMBOL_TASKS = [
     ('renamed-symbol-order', 'program', 'q :- p < p0, p.', 'q :- p < p0, p, not r. r :- not p.', 'input: p/0. output: q/0.'),
+    ('symbol-named-like-unary-predicate', 'program', 'r :- p(p), p1 < p.', 'r :- p(p).', 'input: p/1. output: r/0.'),
+    ('symbol-named-like-private-binary-predicate', 'program', 'aux(aux, aux0) :- p(aux_). r :- aux(aux, auxA).',
+     'r :- p(aux_), aux = aux, auxA = aux0.', 'input: p/1. output: r/0.'),
     ('renamed-symbol-between', 'program', 'q(p, p0, p_, pa) :- p.', 'q(p, p0, p_, pa) :- p, not r. r :- not p.', 'input: p/0. output: q/4.'),
 ]
 
@@ -48,6 +56,15 @@ def generate(tier, seed):
     for t in EXT_SYMBOL_TASKS + list(EXT_TASKS):
         items.append({'family': 'external-corpus', 'kind': 'external', 'task': t, 'label': t[0]})
     return items
+
+
+def original_symbol(d, input_names, aliases):
+    """Which symbolic constant of the task a declared TFF constant stands for, read off the *input*: a declared constant
+    that is not written anywhere in the task can only be a renamed one (<name>__s stands for <name>); when both
+    <name> and <name>__s are written in the task, the documented renaming rule (clash with a 0-ary predicate) decides."""
+    if d.endswith('__s') and d[:-3] in input_names and d not in input_names:
+        return d[:-3]
+    return aliases.get(d, d)
 
 
 def valid(build, timeout=8000):
@@ -107,11 +124,13 @@ def check_item(item):
         preds = sorted(asp_preds(lp) | asp_preds(rp))
     else:
         req, resp = run_task(b, item['task'], 'universal', 'sequential', True, True)
-        if resp[0][0] == 'refused':
+        if resp[0][:1] == ('refused',):
             return [{'family': item['family'], 'key': item['label'], 'input': item['label'], 'verdict': 'skipped'}]
         payload = resp[0]
         preds = []
     problems = parse_problems(payload)
+    texts = (item['left'], item['right']) if item['kind'] == 'strong' else item['task'][2:5]
+    input_names = set(re.findall(r'[a-z_][A-Za-z0-9_]*', ' '.join(texts)))
     seen_texts = set()
     for p in problems:
         base = {'family': item['family'], 'input_key': item['label'], 'twin': item.get('twin', False), 'nontrivial': True}
@@ -131,7 +150,7 @@ def check_item(item):
         # ---- (b) symbol order chain
         if key_part not in seen_texts:
             seen_texts.add(key_part)
-            meaning = {s: ('sym', aliases.get(s, s)) for s in decl_symbols}
+            meaning = {s: ('sym', original_symbol(s, input_names, aliases)) for s in decl_symbols}
             links = []
             for it in order_ax:
                 r = dict(base)
